@@ -2,7 +2,7 @@
    closed k t X: every member of X has at least t shift successors in X and, for t = 1, reaches inside X a member with
    two or more successors in X; largest_closed k t M X: X is closed, inside M, and contains every closed subset of M. *)
 From DSW Require Import Py Bignum Convert Kmer Graph Spec GraphSpec.
-From DSW.Proofs Require Import GenerateProofs TrimMapProofs.
+From DSW.Proofs Require Import GenerateProofs TrimMapProofs CorollaryProofs.
 
 Theorem C03_thresholds_2_to_4 : forall k t mask, (1 <= k)%nat -> length mask = Z.to_nat (pow4 k) -> Forall bit mask -> 2 <= t ->
   match connect_coding_graph k mask t with
@@ -65,6 +65,28 @@ Theorem C03_remove_useless : forall k t mask, (1 <= k)%nat -> length mask = Z.to
     /\ remove_useless (accessor_to_latter_map (induced k mask)) t = Ok (accessor_to_latter_map (induced_on k X)).
 Proof. exact remove_useless_spec. Qed.
 
+(* "a smaller mask never yields a larger graph", stated on the function itself: vertices and arcs of the smaller graph are in
+   the larger graph; if the larger mask raises ValueError so does the smaller one *)
+Theorem C03_monotone_function : forall k t m1 m2, (1 <= k)%nat -> 1 <= t ->
+  length m1 = Z.to_nat (pow4 k) -> length m2 = Z.to_nat (pow4 k) -> Forall bit m1 -> Forall bit m2 -> mask_le k m1 m2 ->
+  match connect_coding_graph k m1 t, connect_coding_graph k m2 t with
+  | Ok (V1, acc1), Ok (V2, acc2) =>
+      (forall v, In v V1 -> In v V2) /\
+      (forall v j, 0 <= v < pow4 k -> 0 <= j < 4 -> 0 <= entry acc1 v j -> entry acc2 v j = entry acc1 v j)
+  | Raise ValueError, _ => True
+  | Ok _, Raise ValueError => False
+  | _, _ => False
+  end.
+Proof. exact coding_graph_monotone. Qed.
+(* no dead end and no information-free trap in the returned graph *)
+Theorem C03_no_dead_end : forall k t mask V acc, (1 <= k)%nat -> 1 <= t ->
+  length mask = Z.to_nat (pow4 k) -> Forall bit mask -> connect_coding_graph k mask t = Ok (V, acc) ->
+  forall v, In v V ->
+    (exists j, 0 <= j < 4 /\ 0 <= entry acc v j) /\
+    (forall j, 0 <= j < 4 -> 0 <= entry acc v j -> In (entry acc v j) V) /\
+    (exists w, reach acc v w /\ branching acc w).
+Proof. exact coding_graph_no_dead_end. Qed.
+
 (* non-vacuity, incl. the two order-2 masks on which the pinned tree failed before the repair *)
 Example C03_nonvacuous :
   connect_coding_graph 2 [1;1;0;0;1;1;0;0;0;0;0;0;0;0;0;1] 1 =
@@ -82,3 +104,5 @@ Print Assumptions C03_monotone.
 Print Assumptions C03_unique.
 Print Assumptions C03_latter_map_trimming.
 Print Assumptions C03_remove_useless.
+Print Assumptions C03_monotone_function.
+Print Assumptions C03_no_dead_end.
